@@ -61,6 +61,9 @@ _uses("RecurrencePlot.white_vertline_dist[uses]", _RP, "RecurrencePlot.white_ver
 #   ndarray.argsort(axis=1): same shape, every entry an index into axis 1 (NumPy semantics);
 #   np.arange(n, dtype=NODE): length max(n,0), element a == a (NumPy semantics).
 # assumed: adaptive_neighborhood_size>=0 (caller-supplied).
+# (a), (b) cover missing_values=False.  The missing-values branch (repair ea3dbc3+1: the kernel runs on the complete
+#   state vectors, selected with np.ix_ and scattered back) uses fancy indexing the generator does not model; it is
+#   left to the bounded layer (c07.py: adaptive_neighborhood_size/missing-*), not counted as proved.
 _ANS_FACTS = {
     "RecurrencePlot.distance_matrix": {"returns": "arr:float64:2", "ensures": ["shape(result,0)==shape(result,1)"]},
     "distance.argsort": {"returns": "arr:int64:2",
@@ -74,7 +77,8 @@ _ANS = ["arg0>=0", "shape(arg2,0)==arg0 and shape(arg2,1)==arg0", "shape(arg4,0)
         "all(arg4[a,b]==arg4[b,a] and (arg4[a,b]==0 or arg4[a,b]==1) for a in range(arg0) for b in range(arg0))"]
 # (a) default processing order (order=None)                                                              #obl 8
 _c = K("RecurrencePlot.set_adaptive_neighborhood_size[uses]", _RP, lang="py", func="RecurrencePlot.set_adaptive_neighborhood_size",
-       props=("C07", "C20"), py_mode=True, inputs={"adaptive_neighborhood_size": "int"}, bind={"order": None}, requires=[],
+       props=("C07", "C20"), py_mode=True, inputs={"adaptive_neighborhood_size": "int", "self.missing_values": "bool"},
+       bind={"order": None}, requires=["self.missing_values==0"],
        call_facts=_ANS_FACTS, count_calls=("_set_adaptive_neighborhood_size",),
        asserts={"call:_set_adaptive_neighborhood_size":
                 _ANS + ["shape(arg3,0)==arg0", "all(0<=arg3[a] and arg3[a]<arg0 for a in range(arg0))"]},
@@ -84,7 +88,8 @@ _c.region = "body"
 # assumed: shape(order,0)==n_time and all(0<=order[a]<n_time) - `order` is handed through (to_cy keeps the length:
 #   asserted) and never checked against the current distance matrix.
 _c = _uses("RecurrencePlot.set_adaptive_neighborhood_size[uses:order]", _RP, "RecurrencePlot.set_adaptive_neighborhood_size",
-           ("C07", "C20"), {"adaptive_neighborhood_size": "int", "order": "arr:int64:1"}, [],
+           ("C07", "C20"), {"adaptive_neighborhood_size": "int", "order": "arr:int64:1", "self.missing_values": "bool"},
+           ["self.missing_values==0"],
            {"_set_adaptive_neighborhood_size": _ANS + ["shape(arg3,0)==shape(order,0)"]})
 _c.call_facts = _ANS_FACTS
 
